@@ -258,6 +258,16 @@ def validate(trace_module, cfg, files, timeout=3000, xmx="3g", par=None, extra_e
         return bads, int(m.group(1)), notes
 
     bads, consumed, notes = [], 0, []
+    if par is None:
+        # every TLC instance may grow to its heap limit: do not start more of them than the memory that is
+        # available right now can hold (an instance killed by the kernel is exit 2, not a verdict)
+        par = NCPU
+        try:
+            avail_kb = int([l for l in open("/proc/meminfo") if l.startswith("MemAvailable")][0].split()[1])
+            heap_gb = float(xmx.rstrip("g")) if xmx.endswith("g") else 3.0
+            par = max(2, min(NCPU, int(avail_kb / 1048576.0 / (heap_gb + 0.6))))
+        except Exception:
+            pass
     with cf.ThreadPoolExecutor(max_workers=par or NCPU) as ex:
         for b, n, nt in ex.map(one, files):
             bads += b
